@@ -193,14 +193,21 @@ def _run(case):
         ok, d = lib(fails, "direct_pdf", lambda: tm.TruncatedGaussianPDF(measure=base(), lower_limit=jl(case["lower"]), upper_limit=jl(case["upper"])))
     if not ok:
         return fails
-    if np.min(frac) < 1e-6:
-        fails.append(Failure("excluded:tiny_mass_normalised", "normalised variant judged only for interval mass >= 1e-6 of the total"))
+    # The library forms the mass as Phi(beta) - Phi(alpha) (norm.cdf is accurate to its own size in the lower tail): its
+    # relative error is eps * Phi(beta) / mass.  In the upper tail (Phi(beta) ~ 1) that is eps / fraction - the cancellation the
+    # property's accuracy clause refers to - while an interval in the LOWER tail is resolved to full relative accuracy however
+    # small its mass is.  Normalised variants are judged whenever this amplification is below 1e6.
+    from scipy import stats
+
+    amp = stats.norm.cdf((hi - mu) / sd) / np.maximum(frac, 1e-300)
+    amp = np.maximum(amp, 1.0)
+    if np.max(amp) > 1e6:
+        fails.append(Failure("excluded:tiny_mass_normalised", "normalised variant not judged where Phi(beta)/mass > 1e6 (upper-tail cancellation)"))
         return fails
     tag = f"normalised[{variant}]"
     xs = list(np.asarray(case["xs"], float)) + [0.5 * (max(lo[0], mu[0] - 3 * sd[0]) + min(hi[0], mu[0] + 3 * sd[0]))]
     xs = _unambiguous(np.array(xs).reshape(-1, 1), lo, hi)
     want = np.stack([np.where((xs[:, 0] >= lo[r]) & (xs[:, 0] <= hi[r]), u(r)(xs[:, 0]) / mom[r, 0], 0.0) for r in range(R)])
-    amp = 1.0 / frac
     ok, got = lib(fails, tag + ".evaluate", lambda: d(J(xs))) if len(xs) else (False, None)
     if ok:
         check(fails, tag + ":evaluate", got, want, (np.maximum(want, 1e-300) + 1e-12) * amp[:, None])
